@@ -94,6 +94,29 @@ where
     (steps, end, rest)
 }
 
+/// The same script again, then the rest consumed by internal iteration: (`fold`, `count()`, `last()`) - they must show
+/// what the `for` loop of `real_iter` shows (round-5 seed C11-r5-1: a `fold` override that is wrong after a `next()`).
+fn real_iter_internal<R: RawData, O: DataOrder>(buf: &[u8], script: &[i64]) -> (Vec<u32>, usize, Option<u32>)
+where
+    R::Storage: Into<u32>,
+{
+    let advanced = || {
+        let mut it = RawDataSlice::<R, O>::new(buf).into_iter();
+        for &k in script {
+            let _ = if k < 0 { it.next() } else { it.nth(k as usize) };
+        }
+        it
+    };
+    let cap = 8 * buf.len() + 8;
+    let folded = advanced().fold(Vec::new(), |mut v: Vec<u32>, r| {
+        if v.len() <= cap {
+            v.push(r.into_inner().into());
+        }
+        v
+    });
+    (folded, advanced().count(), advanced().last().map(|r| r.into_inner().into()))
+}
+
 // ---------------------------------------------------------------------------------------------
 // Independent reference: the documented layout, one bit at a time.
 // ---------------------------------------------------------------------------------------------
@@ -435,6 +458,10 @@ impl Module for M {
                 });
                 let want_rest: &[u32] = if pos < count as u128 { &items[pos as usize..] } else { &[] };
                 ctx.expect(rest == want_rest, "iter-items", || format!("{} rest {:?} want {:?}", op, rest, want_rest));
+                let (folded, cnt, last) = dispatch!(bits, order, real_iter_internal(&buf, &script));
+                ctx.expect(folded == rest && cnt == rest.len() && last == rest.last().copied(), "iter-items-by-internal-iteration", || {
+                    format!("{} fold {:?} count {} last {:?}; next() yields {:?}", op, folded, cnt, last, rest)
+                });
                 format!(
                     "{} end={} rest={}",
                     if steps.is_empty() {
